@@ -16,6 +16,8 @@ GEN_BENCH = ["tiny-gen", "tiny-gen-rgoal", "small-gen", "small-gen-rgoal",
              "pocp-2-gen"]
 
 _TMP = None
+_LOADER = None
+_GENERATOR = None
 
 
 _TMP_OWNER = None
@@ -66,9 +68,20 @@ def build(spec):
             name=spec["name"])
         return scen, cfg
     if kind == "yaml":
-        cfg = reader.from_yaml_text(spec["text"], name="doc")
-        path = write_doc(spec["text"])
-        scen = nasim.load_scenario(path, name="doc")
+        # the name is free: a user's own file may be called like a benchmark;
+        # a ScenarioLoader instance may be reused for several files
+        h = sum(map(ord, spec["text"][:200]))
+        name = "doc" if h % 5 else SHIPPED[h % len(SHIPPED)]
+        cfg = reader.from_yaml_text(spec["text"], name=name)
+        path = write_doc(spec["text"], tag=name)
+        if h % 3 == 0:
+            global _LOADER
+            if _LOADER is None:
+                from nasim.scenarios import ScenarioLoader
+                _LOADER = ScenarioLoader()
+            scen = _LOADER.load(path, name=name if h % 2 else None)
+        else:
+            scen = nasim.load_scenario(path, name=name if h % 2 else None)
         return scen, cfg
     if kind == "generated":
         params = dict(spec["params"])
@@ -80,6 +93,21 @@ def build(spec):
                 params["address_space_bounds"])
         st = np.random.get_state()
         try:
+            if spec.get("then") is not None:
+                # one ScenarioGenerator instance reused for a second
+                # generation: the first scenario must not change any more
+                global _GENERATOR
+                if _GENERATOR is None:
+                    from nasim.scenarios import ScenarioGenerator
+                    _GENERATOR = ScenarioGenerator()
+                scen = guarded_generate(_GENERATOR.generate, **params)
+                cfg = reader.from_generated(scen)
+                p2 = dict(spec["then"])
+                if p2.get("address_space_bounds") is not None:
+                    p2["address_space_bounds"] = tuple(
+                        p2["address_space_bounds"])
+                guarded_generate(_GENERATOR.generate, **p2)
+                return scen, cfg
             scen = guarded_generate(nasim.generate_scenario, **params)
         finally:
             np.random.set_state(st)
@@ -263,7 +291,10 @@ def draw_spec(rng, mix=None):
                     "name": rng.choice(GEN_BENCH[:5] * 4 + GEN_BENCH[5:7]),
                     "seed": rng.randint(0, 10 ** 6)}
         p = gen_params(rng, max_hosts=50)
-        return {"kind": "generated", "params": p}
+        spec = {"kind": "generated", "params": p}
+        if rng.random() < 0.15:
+            spec["then"] = gen_params(rng, max_hosts=30)
+        return spec
     if kind == "yaml":
         doc = docgen.gen_doc(rng, big=rng.random() < 0.05)
         return {"kind": "yaml", "text": docgen.emit(doc, rng)}
